@@ -236,7 +236,7 @@ def r3(ctx):
 
 def r4(ctx):
     c = ctx.body(ctx.find(path="barter::engine::state::position::calculate_pnl_realised"))
-    names = [c.locals[i]["name"] for i in range(1, c.argc + 1)]
+    names = [c.param_name(i) for i in range(1, c.argc + 1)]
     ctx.check("calculate_pnl_realised", names == ["position_side", "price_entry_average", "closed_quantity", "closed_price", "closed_fee"],
               "parameter roles", got=names, key="params")
     e, cq, cp, cf = sympy.symbols("price_entry_average closed_quantity closed_price closed_fee")
